@@ -29,8 +29,8 @@ META = {
                   'three signature classes. Theorems quantify over builder-API histories (mock with fitting or rejected '
                   'callbacks, per-method Cancel, Reset, drop, assignments by the test); handles kept across Reset are modelled '
                   'and run but outside Reachable. Recorded defects of the unchanged code that the run reproduces as KNOWN-FINDING: '
-                  'F25 kept handle re-mocks, F27 same-named foreign unexported method, F28 two builders on one variable, '
-                  'F29 second Reset clobbers an assigned variable. Trusted: Lean kernel, harness, generators.',
+                  'F25 kept handle re-mocks, F27 same-named foreign unexported method, F28 two builders on one variable. '
+                  'Trusted: Lean kernel, harness, generators.',
 }
 
 PKG = 'github.com/tencent/goom'
@@ -622,35 +622,6 @@ def two_builder_pattern(line):
     return False
 
 
-def reset_again_pattern(line):
-    """A variable is restored (Reset / Cancel), then assigned by the test, then its builder is Reset again (or the method
-    cancelled again) without a new mock in between: the stale cancelled mocker restores the old value again (finding F29)."""
-    _, _, ops = parse_line(line)
-    owner, stale, armed = {}, {}, set()
-    for f in ops:
-        if f[0] in MOCKS or f[0] == 'pc':
-            v = int(f[2])
-            owner[v] = int(f[1])
-            stale.pop(v, None)
-            armed.discard(v)
-        elif f[0] == 'as':
-            if int(f[1]) in stale:
-                armed.add(int(f[1]))
-        elif f[0] == 'rs':
-            for v, b in owner.items():
-                if b == int(f[1]):
-                    if v in armed:
-                        return True
-                    stale[v] = True
-        elif f[0] == 'cn':
-            v = int(f[2])
-            if v in armed:
-                return True
-            if v in owner:
-                stale[v] = True
-    return False
-
-
 def shadow_pattern(line):
     """A mocked method name is shared by an unexported method of another package in the same method set (finding F27)."""
     decls, vars_, ops = parse_line(line)
@@ -839,6 +810,8 @@ CORPUS = [  # minimised past failures (F11, F9) and hand-written shapes, always 
     'c07.hist T:9000:M/0,JOT/0,Ek1/1 V:9000:3 V:9000:0 ap:0:0:M:0 ap:0:1:M:1 as:0:0 cn:0:0:M wd:0 as:1:4 ap:0:1:JOT:2 ca:1 rs:0 wd:0 wd:1',
     # F27: crypto/ecdh.Curve brings an unexported `ecdh` of another package next to the own `ecdh`
     'c07.hist T:7000:GenerateKey/9,NewPrivateKey/9,NewPublicKey/9,Zz/0,ecdh@crypto/ecdh/9,ecdh/0,privateKeyToPublicKey@crypto/ecdh/9 V:7000:0 od:7000 ap:0:0:Zz:0 ca:0 ap:0:0:ecdh:1 ca:0 rs:0 wd:0',
+    # (F29, fixed 1956238) a second Reset / a Cancel after Reset must keep what the test assigned since
+    'c07.hist T:9000:M/0,JOT/0,Ek1/1 V:9000:4 V:9000:0 ap:0:0:M:0 rt:0:1:JOT:1 rs:0 as:0:0 as:1:6 rs:0 wd:0 wd:1 cn:0:0:M wd:0 ap:0:0:JOT:2 as:0:2 rs:0 wd:0 rs:0 wd:0',
     # F28: one variable mocked through two builders
     'c07.hist T:9000:M/0,JOT/0,Ek1/1 V:9000:0 ap:0:0:M:0 ap:1:0:JOT:1 ca:0 rs:0 rs:1 wd:0 ca:0',
     # exported non-ASCII names sort before unexported ASCII ones although byte-wise greater
@@ -919,11 +892,6 @@ def run(tier):
             # one variable mocked through two builders: each builder has its own context and itab, the second wipes the first
             known_n += 1
             out.violation(why, {'kind': 'impl-oracle', 'ops': [ops[i]], 'observed': impl[i], 'why': why}, key='two-builders-one-variable')
-            continue
-        if hint in ('ca', 'wd') and reset_again_pattern(ops[i]):
-            # the cancelled mocker stays in Builder.mockers: the next Reset writes its old backup over the value assigned since
-            known_n += 1
-            out.violation(why, {'kind': 'impl-oracle', 'ops': [ops[i]], 'observed': impl[i], 'why': why}, key='reset-again-clobbers-assigned-variable')
             continue
         if hint in MOCKS | {'ca'} and shadow_pattern(ops[i]):
             # methodIndexOf compares names only: an embedded foreign unexported method of the same name is chosen
@@ -1025,7 +993,7 @@ def shrink(binary, line, hint):
         return 'c07.hist ' + ' '.join(head + res)
 
     def fails(cand):
-        if f14_pattern(cand) or two_builder_pattern(cand) or reset_again_pattern(cand) or shadow_pattern(cand):
+        if f14_pattern(cand) or two_builder_pattern(cand) or shadow_pattern(cand):
             return False                                               # never shrink into the input class of a known finding
         impl, path, _ = run_impl(binary, [cand], tag='c07-shrink', chunk=1)
         model, _ = run_model(path, tag='c07-shrink')
